@@ -311,8 +311,8 @@ theorem C05_refines_server (p : Params) (hk : p.kind = .multiplex) (hg : GoodCfg
 
 /-! ### obligations about the facts extracted from the current source -/
 
-/-- **C05_gen_cfg_good.**  In the current source every containment layer — the request loop of a
-    connection job, its handshake, the denied-connection handshake run by the acceptor, Worker.run,
+/-- **C05_gen_cfg_good.**  In the current source every containment layer the theorems rest on — a
+    connection job's handshake, the denied-connection handshake run by the acceptor, Worker.run,
     the multiplex request handler and its handshake — ends in `except Exception`. -/
 theorem C05_gen_cfg_good : GoodCfg Pyro.Gen.C05.cfg := by
   constructor <;> decide
